@@ -28,10 +28,12 @@ import shutil
 import subprocess
 import sys
 import tempfile
+import time
 from pathlib import Path
 
 import common
 import impl
+from props import c18_imports
 
 from rattr.models.context import Context
 from rattr.models.ir import FileIr, FunctionIr
@@ -293,13 +295,15 @@ CORPUS = [
 def write_project(root, files):
     root.mkdir(parents=True, exist_ok=True)
     for n, s in files.items():
+        (root / n).parent.mkdir(parents=True, exist_ok=True)
         (root / n).write_text(s)
 
 
 # ------------------------------------------------------------------ harvest (in-process)
 
-def harvest(projdir):
-    """Analyse target.py in-process. Returns dict of named objects or raises."""
+def harvest(projdir, facts=False):
+    """Analyse target.py in-process. Returns dict of named objects or raises.
+    facts: also the module graph as the real locator / root contexts see it (c18_imports.graph_facts)."""
     from rattr.analyser.file import parse_and_analyse_file
     from rattr.models.results.util import make_cacheable_results
     from rattr.results import generate_results_from_ir
@@ -312,8 +316,9 @@ def harvest(projdir):
                             target_ir={"filename": "target.py", "ir": copy.deepcopy(file_ir)})
             results = generate_results_from_ir(target_ir=file_ir, import_irs=import_irs)
             cache = make_cacheable_results(results, file_ir, import_irs)
+            graph = c18_imports.graph_facts(file_ir.context, import_irs) if facts else None
         post = OutputIrs(import_irs=import_irs, target_ir={"filename": "target.py", "ir": file_ir})
-    return {"pre": pre, "post": post, "results": results, "cacheable": cache}
+    return {"pre": pre, "post": post, "results": results, "cacheable": cache, "graph": graph}
 
 
 def trim_context(ctx, keep):
@@ -743,15 +748,34 @@ def run(tier, seed, build):
                 "module import, star import, imports followed), full and with the builtin part of the symbol table "
                 "trimmed; (b) type-directed synthesised Symbol (full kind x interface x target matrix), FileIr "
                 "(context depth 0-2, with and without equal-name set members, with duplicate key ids), FileResults, "
-                "CacheableResults. non-trivial = distinct document with >= 1 non-empty collection")
+                "CacheableResults; (c) import-graph projects (fixed corpus + generated: depth 2-3, fan-out 2-4 at each level "
+                "below the target, diamonds, cross-level and sibling edges, cycles, a package, 8 import spellings, "
+                "same-named classes in sibling modules): harvested like (a), run through the real CLI (-o ir, results, "
+                "cacheable) and an in-process worker under >= 6 / 8 hash seeds, and through the model's import BFS. "
+                "non-trivial = distinct document with >= 1 non-empty collection")
     rng = random.Random(seed)
     if tier == "quick":
         NPROJ, NCLI, NSEEDS, NSYN, NPERM, NFULL = 48, 16, 4, 500, 3, 4
+        # import graphs: NGRAPH projects (fixed corpus first), all through the in-process worker under
+        # NWSEEDS hash seeds, the first NGCLI through the real CLI (3 outputs) under NGSEEDS hash seeds
+        NGRAPH, NGCLI, NGSEEDS, NWSEEDS = 16, 4, 6, 8
     else:
         NPROJ, NCLI, NSEEDS, NSYN, NPERM, NFULL = 240, 40, 16, 4000, 5, 12
+        NGRAPH, NGCLI, NGSEEDS, NWSEEDS = 80, 20, 12, 16
     tmp = Path(tempfile.mkdtemp(prefix="c18_"))
     objects = []  # (kind, label, obj, source)
     projects = []
+    gprojects = []  # import-graph projects: dict(pd, files, label, meta, graph, post, keys)
+    phase_t = {}
+    t_phase = time.time()
+    executor = None
+
+    def phase(name):
+        nonlocal t_phase
+        now = time.time()
+        phase_t[name] = round(phase_t.get(name, 0) + now - t_phase, 2)
+        t_phase = now
+
     try:
         # ---- (a) harvest
         for i in range(NPROJ):
@@ -785,6 +809,66 @@ def run(tier, seed, build):
                 objects.append(("symbol", f"p{i}:sym", s, None))
             for m, f in list(h["pre"].import_irs.items())[:1]:
                 objects.append(("fileir", f"p{i}:import:{m}", trim_fileir(f), None))
+
+        phase("harvest")
+        # ---- (a2) import graphs of depth >= 2 (fan-out 2..4 below the target, diamonds, cycles, packages)
+        grng = random.Random(f"import-graph:{seed}")
+        for gi in range(NGRAPH):
+            if gi < len(c18_imports.CORPUS):
+                glabel, gfiles = c18_imports.CORPUS[gi]
+                gmeta = {"corpus": glabel}
+            else:
+                gfiles, gmeta = c18_imports.gen_import_graph(grng, gi)
+                glabel = f"gen{gi}"
+            pd = tmp / f"g{gi}"
+            write_project(pd, gfiles)
+            out = impl.outcome_of(harvest, pd, True)
+            if out[0] != "ok":
+                res.count(f"graph:harvest:{out[0]}:{out[1]}")
+                res.skipped_outside_fragment += 1
+                continue
+            res.count("graph:harvest:ok")
+            h = out[1]
+            keys = list(h["post"].import_irs)
+            res.count(f"graph:depth={gmeta.get('depth', 'corpus')}")
+            res.count(f"graph:modules-analysed={min(len(keys), 12)}{'+' if len(keys) > 12 else ''}")
+            for f in gmeta.get("features", []):
+                res.count(f"graph:feature:{f}")
+            for f in gmeta.get("forms", []):
+                res.count(f"graph:import-form:{f}")
+            hubs = sum(1 for m in h["graph"]["modules"]
+                       if m["name"] in h["post"].import_irs
+                       and len({i["target"] for i in m["imports"] if i["target"] in h["post"].import_irs}) >= 2)
+            res.count(f"graph:imported-modules-importing>=2-followed={min(hubs, 4)}{'+' if hubs > 4 else ''}")
+            gprojects.append({"pd": pd, "files": gfiles, "label": glabel, "meta": gmeta, "graph": h["graph"],
+                              "post": trim_outputirs(h["post"]), "pre": trim_outputirs(h["pre"]), "keys": keys,
+                              "cacheable": h["cacheable"]})
+            objects.append(("outputirs", f"g{gi}:post:trim", trim_outputirs(h["post"]), gfiles["target.py"]))
+            objects.append(("results", f"g{gi}:results", h["results"], gfiles["target.py"]))
+            objects.append(("cacheable", f"g{gi}:cacheable", h["cacheable"], gfiles["target.py"]))
+        phase("graph-harvest")
+
+        # ---- hash-seed jobs (real CLI; in-process worker for the import graphs): submitted now, they run
+        # in the background while this process does the in-process checks, collected further down
+        seeds = list(range(NSEEDS))
+        gseeds = list(range(NGSEEDS))
+        jobs = []
+        for pd, files, ties in projects[:NCLI]:
+            for out in ("ir", "results", "cacheable"):
+                for s in seeds:
+                    jobs.append((pd, out, s))
+        pick = [g for g in gprojects if g["label"] in ("hub5", "chain-of-hubs", "stars-nested")]
+        pick += [g for g in gprojects if g["label"].startswith("gen")][:max(0, NGCLI - len(pick))]
+        if tier != "quick":
+            pick = gprojects[:NGCLI]
+        for g in pick:
+            for out in ("ir", "results", "cacheable"):
+                for s in gseeds:
+                    jobs.append((g["pd"], out, s))
+        executor = cf.ThreadPoolExecutor(max_workers=min(16, os.cpu_count() or 4))
+        worker_futs = [(s, executor.submit(c18_imports.run_worker, s, tmp / f"worker_{s}.json", [g["pd"] for g in gprojects]))
+                       for s in range(NWSEEDS)] if gprojects else []
+        cli_futs = [executor.submit(cli, *j) for j in jobs]
 
         # ---- (b) synthesise
         impl.reset_config()
@@ -959,6 +1043,7 @@ def run(tier, seed, build):
             reqs.append(("structure", {"kind": "fileir", "doc": pairs_loads(crafted_s)}))
             meta.append(("structure", case, pairs_loads(crafted_s), crafted_s, canon_obj("fileir", enc_fileir(ro[1]))))
 
+        phase("in-process")
         # ---- correspondence with the Lean model
         outs = model.batch(reqs)
         for (op, case, doc, doc_s, back_enc), (_, payload), mo in zip(meta, reqs, outs):
@@ -1003,29 +1088,20 @@ def run(tier, seed, build):
                 else:
                     res.count("corr:structure:agree")
 
-        # ---- (canonical, CLI): hash seeds
-        seeds = list(range(NSEEDS))
-        jobs = []
-        for pd, files, ties in projects[:NCLI]:
-            for out in ("ir", "results", "cacheable"):
-                for s in seeds:
-                    jobs.append((pd, out, s))
-        with cf.ThreadPoolExecutor(max_workers=min(16, os.cpu_count() or 4)) as ex:
-            outs = list(ex.map(lambda j: cli(*j), jobs))
-        by = {}
-        for (pd, out, s), r in zip(jobs, outs):
-            by.setdefault((pd, out), []).append((s, r))
-        for (pd, out), runs in by.items():
+        phase("model")
+        # ---- (canonical, CLI and in-process worker): hash seeds. The jobs were submitted after the harvest
+        # and ran in the background.
+        def judge_seed_runs(files, out, cmd, runs, channel):
+            """runs: [(hash seed, (exit status, bytes, stderr tail))] of ONE analysis."""
             res.evaluations += 1
-            files = next(f for p, f, _ in projects if p == pd)
-            case = {"project": {n: s for n, s in files.items()}, "output": out, "cmd": f"python -m rattr -o {out} -w none target.py",
+            case = {"project": {n: s for n, s in files.items()}, "output": out, "cmd": cmd,
                     "seeds": [s for s, _ in runs]}
             if any(r[0] != 0 for _, r in runs):
-                res.count(f"cli:{out}:nonzero-exit")
+                res.count(f"{channel}:{out}:nonzero-exit")
                 res.skipped_outside_fragment += 1
                 if len({r[0] for _, r in runs}) > 1:
                     res.violations.append({"signature": f"{out}-exit-status-depends-on-hash-seed", "case": case})
-                continue
+                return
             outputs = {}
             for s, r in runs:
                 outputs.setdefault(r[1], []).append(s)
@@ -1037,27 +1113,121 @@ def run(tier, seed, build):
                     ok_json = False
             if not ok_json:
                 res.violations.append({"signature": f"invalid-json:cli:{out}", "case": case})
-                continue
+                return
             if len(outputs) == 1:
-                res.count(f"cli:{out}:identical-across-{len(seeds)}-seeds")
-                # worker self-check: the CLI document equals the in-process one up to set order
-                continue
+                res.count(f"{channel}:{out}:identical-across-{len(runs)}-seeds")
+                return
             bs = list(outputs.items())
             da, db = pairs_loads(bs[0][0]), pairs_loads(bs[1][0])
             dc = diff_class(da, db)
             sig = order_signature("hash-seed", out, dc, da, db) if dc else f"{out}-bytes-differ:whitespace"
-            res.count(f"cli:{out}:{len(outputs)}-distinct-outputs")
+            res.count(f"{channel}:{out}:{len(outputs)}-distinct-outputs")
+            detail = {"diff": dc, "distinct_outputs": len(outputs)}
+            if dc and dc[0] == "dict-key-order":
+                # the two key orders (module names of import_irs, ids of a symbol table)
+                detail["keys_a"] = [k for k, _ in _at(da, dc[2])["o"]][:40]
+                detail["keys_b"] = [k for k, _ in _at(db, dc[2])["o"]][:40]
             res.violations.append({"signature": sig, "case": {**case, "seeds_a": bs[0][1], "seeds_b": bs[1][1]},
-                                   "detail": {"diff": dc, "distinct_outputs": len(outputs)}})
+                                   "detail": detail})
             # a second, independent difference may hide behind the first one: compare every pair
-            for (b1, _), (b2, _) in itertools.combinations(bs, 2):
+            for (b1, _), (b2, _) in itertools.combinations(bs[:8], 2):
                 d1, d2 = pairs_loads(b1), pairs_loads(b2)
                 for dcx in all_diffs(d1, d2):
                     sx = order_signature("hash-seed", out, dcx, d1, d2)
                     if sx != sig:
                         res.violations.append({"signature": sx, "case": case, "detail": {"diff": dcx}})
+
+        outs = [f.result() for f in cli_futs]
+        by = {}
+        for (pd, out, s), r in zip(jobs, outs):
+            by.setdefault((pd, out), []).append((s, r))
+        files_of = {p: f for p, f, _ in projects}
+        files_of.update({g["pd"]: g["files"] for g in gprojects})
+        gdirs = {g["pd"] for g in gprojects}
+        for (pd, out), runs in by.items():
+            judge_seed_runs(files_of[pd], out, f"python -m rattr -o {out} -w none target.py", runs,
+                            "cli:graph" if pd in gdirs else "cli")
         res.extra["cli_runs"] = len(jobs)
         res.extra["hash_seeds"] = len(seeds)
+        res.extra["hash_seeds_import_graphs_cli"] = len(gseeds)
+        phase("cli-wait")
+
+        # the in-process worker: every import-graph project under NWSEEDS hash seeds, one process per seed
+        wouts = [(s, f.result()) for s, f in worker_futs]
+        for s, w in wouts:
+            if "error" in w:
+                res.internal_errors.append({"what": "hash-seed worker failed", "hashseed": s, "detail": w})
+        wouts = [(s, w) for s, w in wouts if "error" not in w]
+        for gi, g in enumerate(gprojects):
+            recs = [(s, w["projects"][gi]) for s, w in wouts]
+            if not recs:
+                break
+            if any("fail" in r for _, r in recs):
+                res.count("worker:graph:analysis-failed")
+                if not all("fail" in r for _, r in recs):
+                    res.violations.append({"signature": "analysis-outcome-depends-on-hash-seed",
+                                           "case": {"project": g["files"], "seeds": [s for s, _ in recs]},
+                                           "detail": [(s, r.get("fail")) for s, r in recs]})
+                continue
+            for out in c18_imports.OUTS:
+                if len({r["md5"][out] for _, r in recs}) == 1:
+                    res.evaluations += 1
+                    res.count(f"worker:graph:{out}:identical-across-{len(recs)}-seeds")
+                    continue
+                runs = [(s, (0, Path(r["file"][out]).read_bytes(), "")) for s, r in recs]
+                judge_seed_runs(g["files"], out, "in-process: parse_and_analyse_file, generate_results_from_ir, "
+                                f"serialise ({out}) under PYTHONHASHSEED", runs, "worker:graph")
+            g["seed_keys"] = [(s, r["keys"]) for s, r in recs]
+        res.extra["hash_seeds_import_graphs_worker"] = len(wouts)
+        phase("worker-wait")
+
+        # ---- Tie B for the import BFS: the model's analysis order (Imports.bfs on the graph the real
+        # locator and root contexts give) is the key order of import_irs, under every hash seed; and the
+        # model's IR document assembled in that order is the implementation's
+        greqs = []
+        for g in gprojects:
+            post = g["post"]
+            greqs.append(("ir_document", {
+                "flags": g["graph"]["flags"], "modules": g["graph"]["modules"], "target": g["graph"]["target"],
+                "irs": sorted([[m, enc_fileir(f)] for m, f in post.import_irs.items()], key=lambda p: p[0]),
+                "target_name": post.target_ir["filename"], "target_ir": enc_fileir(post.target_ir["ir"]),
+                "cache_infos": g["graph"]["cacheInfos"]}))
+        gouts = model.batch(greqs)
+        for g, (_, payload), mo in zip(gprojects, greqs, gouts):
+            res.evaluations += 1
+            case = {"project": g["files"], "label": g["label"], "op": "ir_document"}
+            if "__error__" in mo:
+                res.disagreements.append({"case": case, "model": mo})
+                continue
+            if mo["outcome"] != "done" or mo["missing"]:
+                res.disagreements.append({"case": case, "what": "model BFS outcome", "model": {k: mo[k] for k in ("outcome", "analysed", "missing")},
+                                          "impl_keys": g["keys"]})
+                continue
+            bad = False
+            for s, keys in [("this-process", g["keys"])] + g.get("seed_keys", []):
+                if keys != mo["analysed"]:
+                    bad = True
+                    res.disagreements.append({"case": case, "what": "key order of import_irs is not the model's BFS order",
+                                              "hashseed": s, "impl_keys": keys, "model_analysed": mo["analysed"]})
+                    break
+            if bad:
+                continue
+            res.count("corr:bfs-order:agree")
+            doc_s = ser("outputirs", g["post"])
+            if mo["doc"] != pairs_loads(doc_s):
+                res.disagreements.append({"case": case, "what": "IR document assembled from the model's BFS",
+                                          "diff": diff_class(pairs_loads(doc_s), mo["doc"])})
+            else:
+                res.count("corr:ir-document:agree")
+            real_imports = [[str(i.filepath), i.filehash] for i in g["cacheable"].imports]
+            if mo["cache_imports"] != real_imports:
+                res.disagreements.append({"case": case, "what": "cacheable imports list", "model": mo["cache_imports"],
+                                          "impl": real_imports})
+            else:
+                res.count("corr:cache-imports:agree")
+            for pk, pv in mo.get("perm_invariant", {}).items():
+                res.count(f"hyp:{pk}:{'holds' if pv else 'fails'}")
+        phase("graph-model")
 
         # ---- worker self-check: in-process documents == CLI documents up to order inside sorted sets
         for pd, files, ties in projects[:3]:
@@ -1069,12 +1239,16 @@ def run(tier, seed, build):
                 else:
                     res.count("selfcheck:cli-vs-inprocess:agree")
     finally:
+        if executor is not None:
+            executor.shutdown(wait=True, cancel_futures=True)
         shutil.rmtree(tmp, ignore_errors=True)
+    res.extra["phase_wall_s"] = phase_t
 
     res.assumptions = [
         "cattrs and json are trusted: the model states what each registered hook computes on JSON values",
         "[interp] 'compare equal' is Python == on the rattr objects (attrs eq: token and location excluded; sets and dicts order-insensitive)",
-        "[interp] the order of the import_irs dict (filled by the import BFS) and of the context symbol table (insertion order) is part of the analysis; their hash-seed independence is covered end-to-end by the CLI runs only",
+        "[interp] the order of the import_irs dict (filled by the import BFS) and of the context symbol table (insertion order) is part of the analysis: no hook sorts them. The import_irs order is modelled (Imports.bfs on the module graph the real locator and root contexts give, imports of a file in symbol-table order; C18_importirs_in_bfs_order, C18_irdocument_canonical) and tied to the code by tieA_import_queue and by op ir_document (model BFS order == key order of the real import_irs in this process and under every worker hash seed); hash-seed independence itself is observed end-to-end: real CLI and an in-process worker, >= 6 / 8 hash seeds, import graphs of depth 2-3 with fan-out 2-4 below the target",
+        "the module graph (which module an import symbol resolves to, origins, blacklist / pip / stdlib verdicts, the Import symbols of each root context in symbol-table order) and the CacheableImportInfo of each import symbol are per-case parameters computed by the real code",
         "model `structure` is claimed only for documents the serialiser emits (every key present, declared scalar types)",
         "json.dumps is PROVED injective on the model's JSON values (C18_json_printer_injective) and the sort key (name, json.dumps(member, sort_keys=True)) is proved to separate the members of every set (sortKeyInj_of_isSet); the remaining hypothesis of C18_ir_canonical is the data-type invariant that a member list stands for a Python set (no two members ==, kwargs compared as a frozendict), evaluated by the model on every object (distribution keys hyp:IsSet:holds, hyp:SortKeyInj:holds), a failure is an internal error",
         "model strings are lists of Unicode scalar values: a Python str holding lone surrogates is outside the printer theorem (json.dumps prints chr(0xd83d)+chr(0xde00) and chr(0x1f600) alike)",
